@@ -982,12 +982,60 @@ def rule_semtok_pairing(prog):
     if len(fns) < 3:
         out.missing("semantic_tokens::collect_* (found %d)" % len(fns))
         return out
+    # the handler itself: everything behind the last declaration (comments in front of end-of-file belong to no declaration) is
+    # visited as well - a slice of the document's tokens that starts where the last declaration ends
+    handler = [b for b in c.bodies if b["p"].startswith("lsp4spl::features::semantic_tokens::") and b["k"] in ("fn",) and
+               any((hir.callee(n) or "") in [f["p"] for f in fns] for n in hir.nodes(b["body"], "Call"))]
+    tail_clo = None
+    if not handler:
+        out.missing("semantic token handler (caller of collect_*)")
+    else:
+        hb = handler[0]
+        defs_ = {}
+        for l in hir.nodes(hb["body"], "Let"):
+            if l["pat"].get("k") == "Binding" and l.get("init") is not None:
+                defs_[l["pat"]["id"]] = l["init"]
+        covered = False
+        for ix, parents in hir.walk(hb["body"]):
+            if ix.get("k") != "Index" or "Token" not in c.tstr(hir.strip(ix["base"])["t"]):
+                continue
+            rng = hir.strip(ix["idx"])
+            if not (rng.get("k") == "Struct" and "RangeFrom" in (rng.get("adt") or "")):
+                continue
+            start = rng["fields"][0]["e"]
+            roots = [start]
+            pl = hir.path_local(hir.strip(start))
+            if pl and pl["id"] in defs_:
+                roots.append(defs_[pl["id"]])
+            if any(x.get("k") == "MethodCall" and x["m"] == "last" and
+                   any(f.get("k") == "Field" and f["name"] == "global_declarations" for f in hir.nodes(x["recv"]))
+                   for r in roots for x in hir.nodes(r)):
+                covered = True
+                # the closure that turns these tokens into semantic tokens
+                for pr in reversed(parents):
+                    if pr.get("k") == "MethodCall":
+                        for a in pr["args"]:
+                            for cl in hir.nodes(a, "Closure"):
+                                tail_clo = (hb, cl)
+        out.add(hb["d"], "the tokens behind the last declaration are visited", covered, c.loc(hb["sp"]),
+                "semantic tokens are produced per global declaration only: a comment behind the last declaration (or in a document without "
+                "declarations) belongs to no declaration and never gets its `comment` token", ("tail",))
+    units = []
     for b in fns:
         prev = None
         for p in b["params"]:
             if p.get("k") == "Binding" and c.tstr(p["bt"]).replace(" ", "") in ("&mutlsp_types::Position",):
                 prev = "%s#%s" % (p["name"], p["id"])
-        clos = [n for n in hir.nodes(b["body"], "Closure")]
+        units.append((b, prev, None))
+    if tail_clo is not None:
+        hb, cl = tail_clo
+        prev = None
+        for a_ in hir.nodes(cl["body"], "Assign"):
+            if "Position" in c.tstr(hir.strip(a_["l"])["t"]):
+                prev = place(a_["l"])
+        units.append((hb, prev, cl))
+    for b, prev, only_clo in units:
+        clos = [only_clo] if only_clo is not None else [n for n in hir.nodes(b["body"], "Closure")]
         if prev is None or not clos:
             out.add(b["d"], "delta base is threaded through the token closure", None, c.loc(b["sp"]))
             continue
